@@ -143,6 +143,9 @@ def run(ctx):
         for k, v in info["stats"].items():
             stats[k] = stats.get(k, 0) + v
         samples += (info.get("samples") or [])[:2]
+    derrs = [info.get("driver_error") for _, (tr, info) in results if info.get("driver_error")]
+    if derrs and not ctx.violations:
+        raise Broken("driver stopped: %s" % derrs[0])
     if not ctx.violations:
         for need in ("rewards_issued", "credits", "qi_rewards_minted", "locks_accumulated", "claims_paid_expected", "claim_etxs_executed", "forks",
                      "shares_injected", "credit_to_new_account", "credits_with_lockup_bonus"):
